@@ -87,6 +87,15 @@ def evaluate_family(text, ctx, family, nontrivial, variant="asan"):
                                + res.lines[-60:])
             return Outcome(ok=False, sig=v[1], msg=v[2] + " (before the run crashed later on)", detail=detail,
                            classes=sorted(a.classes) + ["crashed(judged-by-C10)"])
+        if variant == "asan" and "rel" in getattr(ctx, "build_dirs", {}) \
+                and any("runtime error:" in ln for ln in res.stderr):
+            # An UndefinedBehaviorSanitizer report stopped the instrumented run (e.g. a signed overflow in a
+            # comparison) before the history could show what the shipped library does with it. The report is
+            # C10's business; what this property asks is decided on the shipped configuration (gcc -O3, no
+            # sanitizer), whose complete history is judged by the same oracle.
+            o = evaluate_family(text, ctx, family, nontrivial, variant="rel")
+            o.classes = list(o.classes or []) + ["ubsan-stop(rejudged-on-rel)"]
+            return o
         return Outcome(ok=True, classes=["crashed(judged-by-C10)"])
     if family == "C10" and len(res.lines) > 20000:
         # tag-pool boundary sweeps: tens of thousands of trivial records, only the exit status matters here
